@@ -347,6 +347,7 @@ HISTORY_R12 = {
 HISTORY_R13 = {
     "C09-r13m1": "missed at first -> a stateful fitness function whose first value is exactly 0.0 for some programs (and the snapshots read the fitness store itself, not has_fitness)",
     "C12-r13m2": "missed at first -> the direction of a single-objective problem given as a numpy bool",
+    "C13-r13m1": "missed at first -> the aggregate recorded for infinite fitness values is the signed value itself",
     "C14-r13m2": "missed at first -> budgets that the initial population already exhausts, with every shipped initialiser and odd population sizes",
     "C16-r13m1": "missed at first -> AdaptiveGeneticProgramming: the best fitness of a generation is not worse than that of the generation before",
     "C20-r13m1": "missed at first -> a recorder opened on a path that already holds the log of an earlier run",
